@@ -171,6 +171,10 @@ Section Budget.
     induction l as [|k l IH]; [reflexivity|]. simpl. rewrite IH, (proj2 (tp_eqb_eq k k) eq_refl). reflexivity.
   Qed.
 
+  (* the cached leader of key k is not the true one *)
+  Definition kstale (st : state) (k : tpk) : Prop :=
+    exists n a, leader_of st k = Some (Some (n, a)) /\ n <> truth k.
+
   (* the step of the induction *)
   Lemma attempt_step : forall fail ps st a r st' res,
     WF st -> NoDup (map p_key ps) -> good ps st a -> run_attempt fail ps st a = (r, st', res) ->
@@ -178,7 +182,8 @@ Section Budget.
     ((success_b ps res = true /\ st' = a_state r /\
       Forall (fun x => rs_node x = truth (p_key (rs_payload x))) (a_resolved r)) \/
      (success_b ps res = false /\
-      exists t, In t (map p_topic ps) /\ stale truth st t /\ ~ stale truth st' t)).
+      (exists t, In t (map p_topic ps) /\ stale truth st t /\ ~ stale truth st' t) /\
+      (exists p, In p ps /\ kstale st (p_key p)))).
   Proof.
     intros fail ps st a r st' res Hwf Hnd [Hl [Hfan Hh]] H. unfold run_attempt in H.
     split; [eapply send_public_WF; eassumption|].
@@ -220,13 +225,17 @@ Section Budget.
         - destruct (IH Eall) as [y [Hy Hn]]. exists y. split; [right; exact Hy|exact Hn].
         - exists x. split; [left; reflexivity|]. apply Z.eqb_neq. exact E. }
       assert (Hstale_of : forall x, In x resolved -> rs_node x <> truth (p_key (rs_payload x)) ->
-                 In (p_topic (rs_payload x)) (map p_topic ps) /\ stale truth st (p_topic (rs_payload x))).
-      { intros x Hx Hne. split.
+                 In (p_topic (rs_payload x)) (map p_topic ps) /\ stale truth st (p_topic (rs_payload x)) /\
+                 In (rs_payload x) ps /\ kstale st (p_key (rs_payload x))).
+      { intros x Hx Hne.
+        assert (Hk : kstale st (p_key (rs_payload x))).
+        { rewrite Forall_forall in Hrt, Hnn. destruct (Hrt x Hx) as [ad Had].
+          destruct (Hnn x Hx _ _ _ Had) as [E|E]; [contradiction|]. exists (rs_node x), ad. split; [exact E|exact Hne]. }
+        split; [|split; [|split; [|exact Hk]]].
         - rewrite <- Hmap, map_map. apply in_map_iff. exists x. split; [reflexivity|exact Hx].
-        - rewrite Forall_forall in Hrt, Hnn. destruct (Hrt x Hx) as [ad Had].
-          destruct (Hnn x Hx _ _ _ Had) as [E|E]; [contradiction|].
-          exists (p_part (rs_payload x)), (rs_node x), ad. split; [|exact Hne].
-          destruct (rs_payload x); exact E. }
+        - destruct Hk as [n [ad [E Hn]]]. exists (p_part (rs_payload x)), n, ad. split; [|exact Hn].
+          destruct (rs_payload x); exact E.
+        - rewrite <- Hmap. apply in_map. exact Hx. }
       assert (Herr_of : forall y, In y rs -> r_err y <> 0 ->
                  exists x, In x resolved /\ rs_node x <> truth (p_key (rs_payload x)) /\ r_topic y = p_topic (rs_payload x)).
       { intros y Hy Hne. rewrite Hrs in Hy. apply in_map_iff in Hy. destruct Hy as [x [<- Hx]]. simpl in Hne.
@@ -241,17 +250,77 @@ Section Budget.
         apply handle_responses_out in Eh. simpl in Eh. subst out. split.
         * simpl. apply andb_false_iff. left. apply not_true_iff_false. intro Hfa. rewrite forallb_forall in Hfa.
           specialize (Hfa _ Hy0). rewrite He0 in Hfa. discriminate.
-        * destruct (Hstale_of x0 Hx0 Hne0) as [Hin Hst]. exists (p_topic (rs_payload x0)). split; [exact Hin|]. split; [exact Hst|].
+        * destruct (Hstale_of x0 Hx0 Hne0) as [Hin [Hst [Hp0 Hk0]]]. split; [|exists (rs_payload x0); split; assumption].
+          exists (p_topic (rs_payload x0)). split; [exact Hin|]. split; [exact Hst|].
           apply cleared_not_stale. destruct Hinv as [Hc _].
           apply (Hc (honest_answer (rs_node x0) (rs_payload x0)) Hy0). rewrite He0. reflexivity.
       + (* the first error is raised: its topic is cleared *)
         split; [reflexivity|]. destruct Hinv as [_ [Hne [rs' [y [Hs' [Hy [Hey [Hcl _]]]]]]]].
         rewrite Hsok in Hs'. inversion Hs'; subst rs'.
         assert (Hne' : r_err y <> 0) by (rewrite Hey; exact Hne).
-        destruct (Herr_of y Hy Hne') as [x [Hx [Hnx Ht]]]. destruct (Hstale_of x Hx Hnx) as [Hin Hst].
+        destruct (Herr_of y Hy Hne') as [x [Hx [Hnx Ht]]]. destruct (Hstale_of x Hx Hnx) as [Hin [Hst [Hpx Hkx]]].
+        split; [|exists (rs_payload x); split; assumption].
         exists (p_topic (rs_payload x)). split; [exact Hin|]. split; [exact Hst|].
         apply cleared_not_stale. rewrite <- Ht. apply Hcl.
         rewrite Forall_forall in H06. destruct (H06 y Hy) as [E|E]; [congruence|]. rewrite <- Hey, E. reflexivity.
+  Qed.
+
+  (* no payload has a stale cached leader => the attempt succeeds (contrapositive of the failure case) *)
+  Lemma attempt_succeeds_if_keys_fresh : forall fail ps st a r st' res,
+    WF st -> NoDup (map p_key ps) -> good ps st a -> run_attempt fail ps st a = (r, st', res) ->
+    (forall p, In p ps -> ~ kstale st (p_key p)) -> success_b ps res = true.
+  Proof.
+    intros fail ps st a r st' res Hwf Hnd Hg H Hfresh.
+    destruct (attempt_step _ _ _ _ _ _ _ Hwf Hnd Hg H) as [_ [_ [[Hs _]|[_ [_ [p [Hp Hk]]]]]]]; [exact Hs|].
+    exfalso. exact (Hfresh p Hp Hk).
+  Qed.
+
+  (* with errors DELIVERED (fail_on_error=False) one attempt heals every payload of the call: afterwards no payload
+     key has a stale cached leader - wrongly routed ones had their topic cleared, rightly routed ones kept or
+     re-learnt a true leader *)
+  Lemma attempt_heals_all_keys : forall ps st a r st' res,
+    WF st -> NoDup (map p_key ps) -> good ps st a -> run_attempt false ps st a = (r, st', res) ->
+    forall p, In p ps -> ~ kstale st' (p_key p).
+  Proof.
+    intros ps st a r st' res Hwf Hnd [Hl [Hfan Hh]] H p Hp [n [ad [Hlead Hne]]]. unfold run_attempt in H.
+    pose proof (send_public_invalidates _ _ _ _ _ _ _ _ _ _ Hwf H) as Hinv.
+    unfold send_public in H. set (ar := aware st None true ps (at_loads a) (at_outs a)) in *.
+    destruct (fanout (a_res ar)) as [[rs failed]|] eqn:Ef; [|contradiction Hfan; reflexivity]. clear Hfan.
+    destruct (attempt_responses _ _ _ _ _ _ Hnd Ef Hh) as [Hfl Hrs]. fold ar in Hrs.
+    destruct (aware_routing _ _ _ _ _ _ _ _ Ef) as [Hmap [Hrt _]]. fold ar in Hmap, Hrt.
+    destruct (aware_unfold _ _ _ _ _ _ _ _ Ef) as [_ [st1 [evs [resolved [st2 [acc [Hr [_ [Hres [_ [_ Hok]]]]]]]]]]].
+    fold ar in Hres, Hok.
+    destruct (resolve_loop_nonew_suffix truth _ _ _ _ _ _ _ _ _ Hwf Hl Hr) as [new [Hnew Hsuf]]. simpl in Hnew. subst new.
+    rewrite Hres in *.
+    assert (Hsok : a_res ar = SOk rs).
+    { destruct (proj1 Hok Hfl) as [rs' Hs']. rewrite Hs' in Ef. simpl in Ef. injection Ef as E1. rewrite Hs', E1. reflexivity. }
+    pose proof (aware_ok_t2b truth _ _ _ _ _ _ _ _ _ _ Hr Hsok) as Ht2b. fold ar in Ht2b.
+    rewrite Hsok in H.
+    assert (H06 : Forall (fun x => r_err x = 0 \/ r_err x = 6) rs).
+    { rewrite Hrs. apply Forall_forall. intros y Hy. apply in_map_iff in Hy. destruct Hy as [x [<- _]]. simpl.
+      destruct (rs_node x =? truth (p_key (rs_payload x))); auto. }
+    destruct (handle_responses (a_state ar) None false rs []) as [st2' hr] eqn:Eh.
+    destruct (handle_06 _ _ _ _ _ _ H06 Eh) as [Hnt _].
+    pose proof (aware_WF st None true ps (at_loads a) (at_outs a) Hwf) as War. fold ar in War.
+    destruct (handle_responses_facts _ _ _ _ _ _ _ War Eh) as [_ [_ [_ [_ [_ [_ Hres']]]]]].
+    destruct hr as [out|e|]; [|destruct Hres' as [Hf _]; discriminate|contradiction Hnt; reflexivity].
+    inversion H; subst r st' res. apply handle_responses_out in Eh as Hout. simpl in Hout. subst out.
+    (* the resolved step of p *)
+    rewrite <- Hmap in Hp. apply in_map_iff in Hp. destruct Hp as [x [Hxp Hx]]. rewrite <- Hxp in Hlead, Hne. clear Hxp.
+    destruct (Z.eq_dec (rs_node x) (truth (p_key (rs_payload x)))) as [Eq|Nq].
+    - (* rightly routed: whatever is cached at the end is true or was cached when x was resolved *)
+      assert (Hl1 : leader_of st1 (p_key (rs_payload x)) = Some (Some (n, ad))).
+      { unfold leader_of in *. rewrite <- Ht2b. eapply handle_responses_sub; [exact Eh|exact Hlead]. }
+      rewrite Forall_forall in Hsuf, Hrt. destruct (Hsuf x Hx _ _ _ Hl1) as [E|E]; [contradiction|].
+      destruct (Hrt x Hx) as [ad' Had]. rewrite Had in E. injection E as En _. apply Hne. rewrite <- En. exact Eq.
+    - (* wrongly routed: the answer was NotLeader, the topic is cleared *)
+      destruct Hinv as [Hc _].
+      assert (Hy : In (honest_answer (rs_node x) (rs_payload x)) rs)
+        by (rewrite Hrs; apply (in_map (fun x => honest_answer (rs_node x) (rs_payload x))); exact Hx).
+      assert (He : is_topic_err (r_err (honest_answer (rs_node x) (rs_payload x))) = true).
+      { simpl. destruct (rs_node x =? truth (p_key (rs_payload x))) eqn:E; [apply Z.eqb_eq in E; contradiction|reflexivity]. }
+      destruct (Hc _ Hy He) as [Hcl _]. simpl in Hcl. specialize (Hcl (p_part (rs_payload x))).
+      destruct (rs_payload x) as [pt pp pg]. unfold p_key in Hlead. simpl in *. rewrite Hcl in Hlead. discriminate.
   Qed.
 
   (* ---- the retry loop ---- *)
@@ -288,10 +357,27 @@ Section Budget.
     intros fail ps atts. induction atts as [|a rest IH]; intros st Hwf Hnd Hg Hlen; [simpl in Hlen; lia|].
     simpl in Hg. destruct Hg as [Hga Hrest]. simpl.
     destruct (run_attempt fail ps st a) as [[r st'] res] eqn:Er. simpl in *.
-    destruct (attempt_step _ _ _ _ _ _ _ Hwf Hnd Hga Er) as [Wf' [Hsub [[Hs _]|[Hs [t [Hin [Hst Hnst]]]]]]]; rewrite Hs.
+    destruct (attempt_step _ _ _ _ _ _ _ Hwf Hnd Hga Er) as [Wf' [Hsub [[Hs _]|[Hs [[t [Hin [Hst Hnst]]] _]]]]]; rewrite Hs.
     - exists 0%nat. split; [reflexivity|lia].
     - pose proof (stale_count_lt ps st st' t Hsub Hin Hst Hnst) as Hlt.
       destruct (IH st' Wf' Hnd Hrest ltac:(lia)) as [k [Hk Hle]]. exists (S k). rewrite Hk. split; [reflexivity|lia].
+  Qed.
+
+  (* errors delivered (fail_on_error=False, what Producer does): at most ONE attempt fails, whatever the number of
+     stale topics among the payloads *)
+  Lemma within_budget_delivering : forall ps atts st,
+    WF st -> NoDup (map p_key ps) -> all_good false ps st atts -> (2 <= length atts)%nat ->
+    exists k, first_success false ps st atts = Some k /\ (k <= 1)%nat.
+  Proof.
+    intros ps atts st Hwf Hnd Hg Hlen. destruct atts as [|a1 [|a2 rest]]; simpl in Hlen; try lia.
+    simpl in Hg. destruct Hg as [Hg1 [Hg2 _]]. simpl.
+    destruct (run_attempt false ps st a1) as [[r1 st1] res1] eqn:E1. simpl in *.
+    destruct (success_b ps res1) eqn:S1; [exists 0%nat; split; [reflexivity|lia]|].
+    pose proof (send_public_WF _ _ _ _ _ _ _ _ _ _ Hwf E1) as W1.
+    pose proof (attempt_heals_all_keys _ _ _ _ _ _ Hwf Hnd Hg1 E1) as Hfresh.
+    destruct (run_attempt false ps st1 a2) as [[r2 st2] res2] eqn:E2. simpl in *.
+    rewrite (attempt_succeeds_if_keys_fresh _ _ _ _ _ _ _ W1 Hnd Hg2 E2 Hfresh).
+    exists 1%nat. split; [reflexivity|lia].
   Qed.
 
   (* the successful attempt reaches the true leaders *)
